@@ -98,9 +98,17 @@ def inject_kani_modules(scratch, contract_files=None):
     if contract_files is None:
         contract_files = sorted(glob.glob(os.path.join(CONTRACTS, "*.kani.rs")))
     for cf in contract_files:
-        src_name = os.path.basename(cf).replace(".kani.rs", ".rs")
+        base = os.path.basename(cf).replace(".kani.rs", "")
+        nested = None
+        if "." in base:
+            # <file>.<module>.kani.rs : the contract module is inserted as a child of the nested module `mod <module> {`
+            # of src/<file>.rs (just before that module's closing brace) instead of at the end of the file
+            base, nested = base.split(".", 1)
+        src_name = base + ".rs"
         src = os.path.join(scratch, "src", src_name)
         entry = {"src": "src/" + src_name, "contract": os.path.relpath(cf, os.path.dirname(CONTRACTS))}
+        if nested:
+            entry["nested_module"] = nested
         if not os.path.exists(src):
             entry["missing"] = True
             log.append(entry)
@@ -108,8 +116,39 @@ def inject_kani_modules(scratch, contract_files=None):
         entry["src_sha256"] = sha256_file(src)
         with open(cf) as f:
             text = f.read()
-        with open(src, "a") as f:
-            f.write("\n// ---- injected by /verif (cfg(kani) only) ----\n")
-            f.write(text)
+        if nested:
+            with open(src) as f:
+                stext = f.read()
+            import re
+            m = re.search(r"^([ \t]*)mod %s \{[ \t]*$" % re.escape(nested), stext, re.M)
+            if not m:
+                entry["missing"] = True
+                log.append(entry)
+                continue
+            # matching closing brace of the nested module
+            depth = 0
+            k = m.end() - 1
+            end = None
+            while k < len(stext):
+                c = stext[k]
+                if c == "{":
+                    depth += 1
+                elif c == "}":
+                    depth -= 1
+                    if depth == 0:
+                        end = k
+                        break
+                k += 1
+            if end is None:
+                entry["missing"] = True
+                log.append(entry)
+                continue
+            stext = stext[:end] + "\n// ---- injected by /verif (cfg(kani) only) ----\n" + text + "\n" + stext[end:]
+            with open(src, "w") as f:
+                f.write(stext)
+        else:
+            with open(src, "a") as f:
+                f.write("\n// ---- injected by /verif (cfg(kani) only) ----\n")
+                f.write(text)
         log.append(entry)
     return log
